@@ -6,11 +6,14 @@
 (*   "short"  every byte string of length 0..3 over a 40 byte alphabet,     *)
 (*   "edits"  every one-edit neighbour (insert / delete / substitute /      *)
 (*            transpose) of every table name over that alphabet,            *)
+(*   "ext"    extensions / prefixes of table names,                          *)
+(*   "rfc"    the header names of RFC 3261 and common extensions (Texts!RfcNames), *)
+(*            their letter-case variants, extensions and prefixes,            *)
 (* checks Auto = Decl on the model (hash + bucket scan vs. membership in    *)
 (* the literal table) and prints `decl` records: what the DOCUMENTED table  *)
 (* says, to be compared with the real GetHdrType / GetMethodNo.             *)
 (***************************************************************************)
-EXTENDS Lookup, TLC, Json
+EXTENDS Lookup, Texts, TLC, Json
 
 CONSTANTS Part      \* "cases" | "short" | "edits"
 VARIABLE nm
@@ -25,6 +28,7 @@ Flip(c) == IF IsUpper(c) THEN c + 32 ELSE IF IsLower(c) THEN c - 32 ELSE c
 \* all case variants: for each subset of positions, flip those
 CaseVariants(n) == { SubSeq([j \in 1..Len(n) |-> IF j \in S THEN Flip(n[j]) ELSE n[j]], 1, Len(n)) : S \in SUBSET (1..Len(n)) }
 
+Lower(n) == SubSeq([j \in 1..Len(n) |-> IF IsUpper(n[j]) THEN n[j] + 32 ELSE n[j]], 1, Len(n))
 LowerUpper(n) == SubSeq([j \in 1..Len(n) |-> Flip(n[j])], 1, Len(n))
 Short == UNION { [1..k -> Alpha] : k \in 0..3 }
 
@@ -47,6 +51,7 @@ Init == CASE Part = "cases" -> nm \in UNION { CaseVariants(n) : n \in { x \in Al
           [] Part = "caseslong" -> nm \in CaseVariants(HdrNameTable[19].n)
           [] Part = "short" -> nm \in { SubSeq(f, 1, Len(f)) : f \in Short }
           [] Part = "edits" -> nm \in UNION { Edits(n) : n \in AllNames }
+          [] Part = "rfc" -> nm \in UNION { {RfcNames[j], LowerUpper(RfcNames[j]), Lower(RfcNames[j])} \cup Ext(RfcNames[j]) : j \in 1..Len(RfcNames) }
           [] Part = "ext" -> nm \in UNION { Ext(n) \cup UNION { Ext(v) : v \in {LowerUpper(n)} } : n \in AllNames }
 Next == FALSE /\ UNCHANGED nm
 Spec == Init /\ [][Next]_nm
